@@ -37,7 +37,7 @@ Read ==
        /\ swpc' = [swpc EXCEPT ![C] = Phase(e)]
        /\ buf' = [buf EXCEPT ![C].err = IF e.ep = "err" THEN RunsOf(e) ELSE <<>>]
        /\ wire' = <<Run(C, "out", 0, 0)>>                      \* not drained yet
-       /\ UNCHANGED <<sent, statusSent, combine, moved, tpc, status, pstate, shut, statusEv, reported>>
+       /\ UNCHANGED <<sent, statusSent, combine, moved, tpc, status, pstate, shut, statusEv, reported, win>>
        /\ bad' = Fails(RightChannel', "P_right_channel")
                  \cup Fails(RightStream', "P_right_stream")
                  \cup Fails(CombinedMeansNoStderr', "P_stderr_after_combine")
@@ -52,7 +52,7 @@ Final ==
   /\ statusSent' = [statusSent EXCEPT ![C] = T.status_sent]
   /\ status' = [status EXCEPT ![C] = IF T.status_got = Unread THEN None ELSE T.status_got]
   /\ reported' = [reported EXCEPT ![C] = T.status_got]       \* what recv_exit_status() returned (Unread: not called)
-  /\ UNCHANGED <<got, swpc, combine, moved, tpc, pstate, shut, statusEv>>
+  /\ UNCHANGED <<got, swpc, combine, moved, tpc, pstate, shut, statusEv, win>>
   /\ bad' = Fails(OutInOrder', "P_stdout_order")
             \cup Fails(ErrInOrder', "P_stderr_order")
             \cup Fails(Lossless', "P_lossless")
